@@ -721,7 +721,29 @@ pub fn run_check<C: Check>(c: &C, opts: &Opts) -> i32 {
                             break;
                         }
                         let mut rng = Rng::new(run_seed(opts.seed, stream, idx));
-                        let scn = c.generate(&mut rng, opts.tier, idx);
+                        // generators may consult the system under test (e.g. to place a budget around
+                        // the halting time): a panic there is a finding too, never a dead worker
+                        let scn = match std::panic::catch_unwind(std::panic::AssertUnwindSafe(|| c.generate(&mut rng, opts.tier, idx))) {
+                            Ok(s) => s,
+                            Err(_) => {
+                                let (loc, msg) = take_last_panic().unwrap_or_default();
+                                if panic_in_harness(&loc) {
+                                    eprintln!("HARNESS-ERROR: panic in harness code at {}: {}", loc, msg);
+                                    std::process::exit(2);
+                                }
+                                println!("violation in run {}: oracle=sut-panic detail=panic at {}: {} (while generating the scenario)", idx, loc, msg);
+                                let dir = verif_dir().join("replays");
+                                let _ = std::fs::create_dir_all(&dir);
+                                let path = dir.join(format!("{}-{}-{}-generate.json", c.id(), opts.seed, idx));
+                                let _ = std::fs::write(&path, serde_json::to_string_pretty(&json!({
+                                    "property": c.id(), "seed": opts.seed, "run": idx, "tier": opts.tier.name(),
+                                    "violation": {"property": c.id(), "oracle": "sut-panic", "detail": format!("panic at {}: {} (while generating the scenario)", loc, msg)},
+                                    "scenario": null, "note": "re-run the check with the same VERIF_SEED to reproduce"
+                                })).unwrap());
+                                println!("VIOLATION property={} replay={}", c.id(), path.display());
+                                std::process::exit(1);
+                            }
+                        };
                         if idx < 3 {
                             let mut s = c.sample(&scn);
                             if let Value::Object(ref mut m) = s {
